@@ -10,6 +10,7 @@ Lit(lk, v, c, b, a, z, as, ae, name, text) ==
   [lk |-> lk, v |-> v, c |-> c, b |-> b, a |-> a, z |-> z, astart |-> as, aend |-> ae, name |-> name, text |-> text]
 IntL(v) == Lit("int", v, <<>>, FALSE, 0, 0, FALSE, FALSE, "", ToString(v))
 SizeL(v, txt) == Lit("int", v, <<>>, FALSE, 0, 0, FALSE, FALSE, "", txt)
+DecL(n, d, txt) == Lit("dec", n, <<>>, FALSE, d, 0, FALSE, FALSE, "", txt)        \* the number n / d written as a decimal fraction
 TextL(c) == Lit("text", 0, c, FALSE, 0, 0, FALSE, FALSE, "", "'" \o Str(c) \o "'")
 BoolL(b, word) == Lit("bool", 0, <<>>, b, 0, 0, FALSE, FALSE, "", word)
 DateL(a, z, txt) == Lit("date", 0, <<>>, FALSE, a, z, FALSE, FALSE, "", "'" \o txt \o "'")
